@@ -231,3 +231,36 @@ def show(e):
     if k == "discr":
         return "discr(%s)" % show(e[1])
     return str(e)
+
+
+def self_writes(b):
+    """blocks in which *self (any field) is assigned, mutably borrowed or used as call destination"""
+    out = []
+    for i, blk in enumerate(b.blocks):
+        if blk.get("cleanup"):
+            continue
+        for s in blk["stmts"]:
+            if s["k"] != "assign":
+                continue
+            for pl, kind in ((s["place"], "assign"),) + (((s["rv"]["place"], "borrow_mut"),) if s["rv"]["k"] == "ref" and s["rv"].get("mut") else ()):
+                e = b.dest_place(pl) if kind == "assign" else b.expand_place(pl)
+                root = e
+                fields = []
+                while isinstance(root, tuple) and root[0] in ("field", "deref", "downcast", "ref", "proj"):
+                    if root[0] == "field":
+                        fields.append(root[2])
+                    root = root[2] if root[0] == "ref" else root[1]
+                if isinstance(root, tuple) and root[0] == "var" and root[1] == "self" and fields:
+                    out.append((i, kind, fields[-1], s.get("sp")))
+        t = blk["term"]
+        if t["k"] == "call":
+            e = b.dest_place(t["dest"])
+            root = e
+            fields = []
+            while isinstance(root, tuple) and root[0] in ("field", "deref", "downcast", "ref", "proj"):
+                if root[0] == "field":
+                    fields.append(root[2])
+                root = root[2] if root[0] == "ref" else root[1]
+            if isinstance(root, tuple) and root[0] == "var" and root[1] == "self" and fields:
+                out.append((i, "call_dest", fields[-1], blk.get("sp")))
+    return out
